@@ -5,14 +5,12 @@ pub open spec fn st_equiv(a: Automaton, x: int, y: int) -> bool {
     forall|w: Seq<u32>| ss_good(w) ==> #[trigger] accepts_from(a, x, w) == accepts_from(a, y, w)
 }
 
-// the automaton the minimizer sees: states are ids, letters are column numbers of the compiled successor table
-pub open spec fn abs_aut(a: Automaton, t: CompactTable) -> MzAut {
-    MzAut {
-        n: a.states@.len() as nat,
-        m: t.alphabet_size as nat,
-        d: |x: u32, j: u32| ct_fn(t, x as int, j as int),
-        fin: |x: u32| a.states@[x as int].is_final,
-    }
+// aa is the automaton the minimizer sees: states are ids, letters are column numbers of the compiled successor table
+pub open spec fn abs_agrees(aa: MzAut, a: Automaton, t: CompactTable) -> bool {
+    &&& aa.n == a.states@.len()
+    &&& aa.m == t.alphabet_size
+    &&& forall|x: u32, j: u32| x < aa.n && j < aa.m ==> #[trigger] (aa.d)(x, j) == ct_fn(t, x as int, j as int)
+    &&& forall|x: u32| x < aa.n ==> #[trigger] (aa.fin)(x) == a.states@[x as int].is_final
 }
 
 // t is the successor table of a with respect to the combined character partition cp (what compile_successors ensures)
@@ -59,3 +57,14 @@ pub open spec fn map_of_partition(r: StateMapping, p: Partition) -> bool {
     &&& forall|x: u32| x < p.base.size ==> #[trigger] r.new_id@[x as int] == pt_bid(p, x) - 1
     &&& forall|b: int| 1 <= b < p.base.block@.len() ==> pt_bid(p, #[trigger] r.old_id@[b - 1] as u32) == b
 }
+
+// views through references (for closure contracts)
+pub open spec fn aut_len(a: &Automaton) -> int { a.states@.len() as int }
+pub open spec fn aut_final(a: &Automaton, i: u32) -> bool { a.states@[i as int].is_final }
+pub open spec fn tbl_ok(t: &CompactTable) -> bool { ct_ok(*t) }
+pub open spec fn tbl_states(t: &CompactTable) -> u32 { t.num_states }
+pub open spec fn tbl_alpha(t: &CompactTable) -> u32 { t.alphabet_size }
+pub open spec fn tbl_fn(t: &CompactTable, i: u32, j: u32) -> u32 { ct_fn(*t, i as int, j as int) }
+
+// `delta` under another name (Automaton::minimize has a local variable called delta)
+pub open spec fn aut_delta(a: Automaton, q: int, c: int) -> int { delta(a, q, c) }
